@@ -1,5 +1,5 @@
 """C19 - Voice sets and interpolation weights are validated."""
-from ..expr import ExprBuilder, show, stores, root_of, walk, mut_arg_calls, to_poly, success_value
+from ..expr import ExprBuilder, show, stores, root_of, walk, mut_arg_calls, to_poly, success_value, canon
 from .. import paths
 from . import common as cm
 
@@ -125,6 +125,22 @@ def run(ctx):
                 continue
             if b.is_derived():
                 continue  # Debug etc. never build the type; serde derives would show up here
+            if adt == IW + "Weights":
+                # the equal-share literal (the pinned tree's `average`): weights = vec![1/n; n] is
+                # valid by construction wherever it is written (helper renamed / inlined)
+                ebb = ExprBuilder(b)
+                lits = [(bb_, i_, st_) for bb_, i_, st_ in b.iter_stmts() if st_.get("k") == "assign" and st_["rv"]["k"] == "aggregate" and st_["rv"]["kind"].get("def") == adt]
+                uni = 0
+                for bb_, i_, st_ in lits:
+                    e_ = ebb.at(bb_, i_).rvalue(st_["rv"])
+                    w_ = e_[2][0] if e_[0] == "agg" and e_[2] else None
+                    if w_ is not None and w_[0] == "call" and w_[1].endswith("from_elem") and len(w_[2]) == 2:
+                        v_, n_ = w_[2]
+                        if v_[0] == "bin" and v_[1] == "Div" and v_[2][0] == "c" and v_[2][1] == 1.0 and v_[3][0] == "cast" and canon(v_[3][2]) == canon(n_):
+                            uni += 1
+                if lits and uni == len(lits):
+                    ctx.ok("C19-R1", "%s builds Weights only as the equal-share literal vec![1/n; n]" % path, b.loc())
+                    continue
             extra.append(path)
         if extra:
             for e in extra:
@@ -244,6 +260,8 @@ def run(ctx):
                 a0, a1 = show(cmp_[2][0]), show(cmp_[2][1])
                 if a0.endswith(".metadata") and a1.endswith(".metadata") and "stream_models" not in a0 + a1 and a0 != a1:
                     return "global"
+                if a0.endswith(".metadata") and a1.endswith(".metadata") and "stream_models" in a0 + a1 and "::zip(" in a0 + a1 and a0 != a1:
+                    return "stream"      # loop form: for (s, r) in a.stream_models.iter().zip(b.stream_models) { if s.metadata != r.metadata .. }
             if cmp_[0] == "bin" and ((cmp_[1] == "Ne" and pos) or (cmp_[1] == "Eq" and not pos)):
                 l, r = show(cmp_[2]), show(cmp_[3])
                 if l.startswith("len(") and r.startswith("len(") and "stream_models" in l and "stream_models" in r and l != r:
@@ -279,14 +297,32 @@ def run(ctx):
             sw_of.setdefault(k, set()).add(sb)
         # ... and no comparison can be skipped: an iteration cannot get from the loop body's entry to
         # the next iteration / the Ok return around the comparison's test
-        for h, lb in b.natural_loops():
-            # the iteration proper starts on the `Some` outcome of the iterator's next()
-            entries = [tg for sb, g, tg in paths.switch_outcomes(b, eb) if sb in lb and tg in lb and g[0] == "some" and "::next(" in show(g[1])]
+        all_loops = b.natural_loops()
+
+        def loop_entries(h_, lb_):
+            # the iteration proper starts on the `Some` outcome of the loop's own iterator next()
+            inner = set()
+            for h2_, lb2_ in all_loops:
+                if h2_ != h_ and h2_ in lb_:
+                    inner |= set(lb2_)
+            return [tg for sb, g, tg in paths.switch_outcomes(b, eb) if sb in lb_ and sb not in inner and tg in lb_ and g[0] == "some" and "::next(" in show(g[1])]
+        for h, lb in all_loops:
+            if any(h2 != h and h in lb2 for h2, lb2 in all_loops):
+                continue      # an inner loop: judged as part of the iteration of its outer loop
+            entries = loop_entries(h, lb)
             if not entries:
                 ctx.note("C19-R2: loop iteration entry not identified; the unskippable-comparison clause was not evaluated")
                 continue
             for k, sbs in sw_of.items():
-                skipped = any(b.can_reach(en, x, avoid=err_blocks | sbs) for en in entries for x in [h] + ok_blocks)
+                inner = [(h2, lb2) for h2, lb2 in all_loops if h2 != h and h2 in lb and sbs and all(x in lb2 for x in sbs)]
+                if inner:
+                    # the comparison sits in an inner loop (one test per stream): the inner loop
+                    # cannot be skipped by an outer iteration, and no inner iteration can skip the test
+                    h2, lb2 = inner[0]
+                    skipped = any(b.can_reach(en, x, avoid=err_blocks | {h2}) for en in entries for x in [h] + ok_blocks) or \
+                        any(b.can_reach(en2, h2, avoid=err_blocks | sbs) for en2 in loop_entries(h2, lb2))
+                else:
+                    skipped = any(b.can_reach(en, x, avoid=err_blocks | sbs) for en in entries for x in [h] + ok_blocks)
                 if skipped:
                     found[k] = False
                     ctx.fail("C19-R2", b.path, "comparison skipped " + k, "an iteration over a further voice can complete without evaluating the %s comparison (it sits behind another condition)" % k, b.loc())
@@ -327,6 +363,14 @@ def run(ctx):
                 src_ok = True
         if not src_ok and allform and all("split_first(voices)" in a and a.endswith(".1") for a in allform):
             src_ok = True      # (first, rest) = voices.split_first(); rest.iter().all(..)
+        if not src_ok:
+            # (first, rest) = voices.split_first(); for v in rest { .. }
+            for bb, t in b.calls():
+                nm = cm.callee_name(t["callee"]) if t["callee"]["k"] == "fndef" else ""
+                if nm.endswith("into_iter") or nm.endswith("::iter"):
+                    a = show(eb.at(bb).op(t["args"][0]))
+                    if "split_first(voices)" in a and a.endswith(".1"):
+                        src_ok = True
         if not src_ok:
             # plain iteration over all voices
             for bb, t in b.calls():
